@@ -39,6 +39,7 @@ var namedWitnesses = map[string]interface{}{
 	"C03/stmt-start-literal":                      c03Case{Tree: prog(es(ir.N(ir.Object, "")))},
 	"C03/printer-paren-indent":                    c03Case{Tree: prog(ir.N(ir.Let, "a", ir.N(ir.Binary, "||", id("a"), ir.N(ir.Binary, "||", id("a"), &ir.Node{K: ir.Func, Params: []string{}, Kids: []*ir.Node{blk()}}))))},
 	"C06/nosemi-hazard":                           c06Case{Src: "a;(b)\nif (a) b; else c"},
+	"C06/eof-comment-trailing-tab":                c06Case{Src: "let a //\t\n"},
 	"C06/crlf-comment-cr":                         c06Case{Src: "let a=1;if(a){let b=a;} //\r\n"},
 	"C08/crlf-comment-map-lines":                  c08Case{Src: "for(let a;;a) //c\r\n//c\r\n{}"},
 	"C06/template-trailing-space":                 c06Case{Src: "let s = `a  \n  b`;"},
